@@ -1,6 +1,7 @@
 SPECIFICATION Spec
 CONSTANTS
   Depth = 3
+  EmitDepth = 3
 INVARIANTS
   InvWellFormed
   InvFailNoChange
